@@ -447,8 +447,9 @@ def write_summary_file_vue(stats, filepath, year=2025, currency_format="${amount
     }
 
     # Assemble final HTML
-    # '<' is escaped so that no text in the data can close the <script> element
-    data_json = json.dumps(spending_data).replace('<', '\\u003c')
+    # '<' is escaped so that no text in the data can close the <script> element;
+    # default=str: extra fields may hold dates (field: d = date)
+    data_json = json.dumps(spending_data, default=str).replace('<', '\\u003c')
     data_script = f'window.spendingData = {data_json};'
 
     if not embedded_html:
